@@ -805,6 +805,16 @@ func ruleP20Fields(p *Prog, r *Report) {
 				}
 			}
 		}
+		// … and methods passed as method values (the arms of a dispatch written as methods)
+		for _, g := range append([]*ssa.Function{}, fs...) {
+			eachInstr(g, func(in ssa.Instruction) {
+				if mc, ok := in.(*ssa.MakeClosure); ok {
+					if t := boundTarget(mc.Fn.(*ssa.Function)); t != nil && t != mc.Fn && t.Signature.Recv() != nil && p.inModFn(t) {
+						fs = append(fs, plainWithAnons(t)...)
+					}
+				}
+			})
+		}
 		for _, g := range fs {
 			eachVInstr(g, func(in ssa.Instruction) {
 				st, ok := in.(*ssa.Store)
@@ -967,6 +977,14 @@ func ruleP20Run(p *Prog, r *Report) {
 			for _, l := range leaves {
 				if c, ok := isCallTo(l, toJson, 0); ok {
 					tj = c
+				}
+				// fmt.Sprintln(doc) is doc + "\n"
+				if fc, _ := callOf(l); fc != nil && staticCallee(fc) != nil && (staticCallee(fc).String() == "fmt.Sprintln" || staticCallee(fc).String() == "fmt.Sprint") && len(fc.Common().Args) == 1 {
+					if els, okE := sliceLitElems(fc.Common().Args[0]); okE && len(els) == 1 {
+						if c, ok := isCallTo(strip(els[0]), toJson, 0); ok {
+							tj = c
+						}
+					}
 				}
 			}
 			if tj == nil {
